@@ -98,7 +98,7 @@ def run(ctx):
             ("h_lockstep", [str(nls), str(ctx.seed)], ("lockstep",), nls),
             ("h_msgcut", [str(nmc), str(ctx.seed)], ("msgcut",), nmc)]
     for j in range(nrecv):
-        jobs.append(("h_recv", [str(ctx.seed + 7919 * j)], ("recv",), 13))
+        jobs.append(("h_recv", [str(ctx.seed + 7919 * j)], ("recv",), 12))
     for binname, args, kinds, want in jobs:
         rc2, lines2 = ctx.run_bin(binname, "", args=args, timeout=1500)
         got = []
